@@ -111,12 +111,69 @@ def _as_list(vals):
     return sum(int(x) if isinstance(x, int) else x[0] for x in vals) % 3 == 1
 
 
+def _layout(vals):
+    """deterministic variety for arrays of rank >= 2: 0 = C order, 1 = Fortran order, 2 = a transposed view --
+    equal as values and members alike, another memory layout"""
+    return (sum(int(x) if isinstance(x, int) else x[0] for x in vals) + len(vals)) % 4
+
+
 def to_py(sd, pd):
     """the Python object handed to the real code for a point description"""
     r = _to_py(sd, pd)
     if isinstance(r, np.ndarray) and _as_list(pd[1]):
         return r.tolist()
+    if isinstance(r, np.ndarray) and r.ndim >= 2:
+        lay = _layout(pd[1])
+        if lay == 1:
+            return np.asfortranarray(r)
+        if lay == 2:
+            return np.ascontiguousarray(r.T).T
     return r
+
+
+def scribble(obj):
+    """overwrite, in place, a value the real code has returned (after it was canonicalised): what a receiver that
+    edits its point in place does.  A function that hands the same object to a later caller then shows it."""
+    if isinstance(obj, np.ndarray):
+        if obj.flags.writeable and obj.size:
+            obj.fill(-7 if np.issubdtype(obj.dtype, np.signedinteger) or np.issubdtype(obj.dtype, np.floating) else 1)
+    elif isinstance(obj, list):
+        for i, x in enumerate(obj):
+            if isinstance(x, (list, dict, np.ndarray)):
+                scribble(x)
+            else:
+                obj[i] = -7
+    elif isinstance(obj, dict):
+        for k, x in list(obj.items()):
+            if isinstance(x, (list, dict, np.ndarray, tuple)):
+                scribble(x)
+            else:
+                obj[k] = -7
+    elif isinstance(obj, tuple):
+        for x in obj:
+            scribble(x)
+
+
+def used_space(sd):
+    """the gymnasium space handed to the real code.  For about half of the Dict spaces it is an object with a
+    history: a channel was first replaced by another sub-space (public Dict.__setitem__), the real functions were
+    called on that, and the channel was put back -- equal to a freshly built space, but not a fresh object"""
+    sp = to_gym(sd)
+    if sd[0] == "dict" and sd[1] and (len(repr(sd)) % 2 == 0):
+        key = sorted(k for k, _ in sd[1])[0]
+        orig = sp[key]
+        try:
+            sp[key] = Tuple((Discrete(3), MultiBinary(2)))
+            x = sp.sample()
+            for fn in (lambda: FW.unflatten(sp, FW.flatten(sp, x)), lambda: FW.flatten_space(sp),
+                       lambda: RW.unravel(sp, RW.ravel(sp, x)), lambda: RW.ravel_space(sp)):
+                try:
+                    fn()
+                except Exception:  # noqa: BLE001
+                    pass
+        finally:
+            sp[key] = orig
+    return sp
 
 
 def _to_py(sd, pd):
@@ -343,7 +400,7 @@ def _in(x, space):
 
 def run_ravel(sd, pd):
     def go():
-        r = RW.ravel(to_gym(sd), to_py(sd, pd))
+        r = RW.ravel(used_space(sd), to_py(sd, pd))
         c = canon_scalar(r)
         return ["ok", c if isinstance(c, int) else BAD]
     return _guard(go)
@@ -351,9 +408,12 @@ def run_ravel(sd, pd):
 
 def run_unravel(sd, k):
     def go():
-        sp = to_gym(sd)
+        sp = used_space(sd)
+        scribble(RW.unravel(sp, int(k)))        # an earlier caller got the same point and edited it in place
         q = RW.unravel(sp, int(k) if (k % 2 == 0 or k >= 2 ** 63) else np.int64(k))
-        return ["ok", canon_pt(sd, q), _in(q, sp)]
+        out = ["ok", canon_pt(sd, q), _in(q, sp)]
+        scribble(q)
+        return out
     return _guard(go)
 
 
@@ -377,18 +437,24 @@ def run_checkspace(sd):
 
 def run_flatten(sd, pd):
     def go():
-        sp = to_gym(sd)
+        sp = used_space(sd)
+        scribble(FW.flatten(sp, to_py(sd, pd)))
         a = FW.flatten(sp, to_py(sd, pd))
-        return ["ok", canon_array(a), _in(a, FW.flatten_space(sp))]
+        out = ["ok", canon_array(a), _in(a, FW.flatten_space(sp))]
+        scribble(a)
+        return out
     return _guard(go)
 
 
 def run_unflatten(sd, pd):
     def go():
-        sp = to_gym(sd)
+        sp = used_space(sd)
+        scribble(FW.unflatten(sp, FW.flatten(sp, to_py(sd, pd))))
         q = FW.unflatten(sp, FW.flatten(sp, to_py(sd, pd)))
         flag = (1 if _in(q, sp) else 0) if all_leaves_int(sd) else 2
-        return ["ok", canon_pt(sd, q), flag]
+        out = ["ok", canon_pt(sd, q), flag]
+        scribble(q)
+        return out
     return _guard(go)
 
 
